@@ -236,7 +236,10 @@ def parse_raw_http(data: bytes) -> Union[HttpRequest, HttpResponse]:
     uri = uri.decode("ascii", errors="ignore").encode()
     result = urlparse(uri)
     uri = result.path
-    params = dict(parse_qsl(result.query))
+    # parse the query as latin-1 text so that every percent-encoded byte value survives, `parse_qsl()` on bytes
+    # can only return ASCII and raises UnicodeEncodeError for e.g. `?q=caf%C3%A9`
+    query = parse_qsl(result.query.decode("ascii"), encoding="latin-1")
+    params = {key.encode("latin-1"): value.encode("latin-1") for key, value in query}
     return HttpRequest(method=method, body=body, headers=headers, uri=uri, params=params)
 
 
